@@ -60,6 +60,37 @@ several packages are selected together because of feature unification (e.g. `car
 check what compiles on the unchanged HEAD first. If you cannot find three good ones outside the listed functions, deliver fewer."""
 
 
+ROUND5 = """
+
+ADDITIONAL INSTRUCTIONS FOR THIS ROUND: other volunteers have already delivered a dozen changes for this property (you cannot see their patches).
+One-line descriptions of what they did, so that you do NOT repeat them:
+{done}
+Find changes that are DIFFERENT from all of the above in mechanism - the same function is fine when the mistake is a different one, and so is code
+nobody has touched yet. Directions that have been under-used so far: (i) two cooperating edits in different functions or crates that each look
+harmless alone; (ii) concurrency details - what is held across an `.await`, lock scope, `select!` branch preconditions and cancellation safety,
+channel capacity / try_send vs send, drop order, a spawned task that outlives its owner; (iii) state that is updated before vs after a fallible
+step; (iv) boundary values (zero, empty, exactly-equal, first/last element, a second occurrence); (v) trait impls and derives the logic silently
+relies on (PartialEq / Ord / Hash / Clone / Default / From / Display / serde attributes); (vi) stay in code that is actually compiled on Linux (this sandbox is Linux; cfg(windows) code cannot be built or demonstrated here). Number your deliverables {pid}-13, {pid}-14, {pid}-15 (directories /tmp/seeded/{pid}-13 etc.). Never use `git stash`. Never run two cargo
+commands at once. In each demo/README.md put the exact run command on its own line starting with `cargo test` and the destination path of each
+demo file as a full `crates/...` path. Some test targets only compile when several packages are selected together because of feature unification
+(e.g. `cargo test -p ignore-files -p watchexec-filterer-ignore -p watchexec-filterer-globset --offline`, `cargo test -p watchexec-events --offline
+--features serde`, `cargo test -p project-origins -p ignore-files --offline`); check what compiles on the unchanged HEAD first. If you cannot find
+three good ones, deliver fewer."""
+
+
+def done(pid):
+    import glob
+    import os
+    out = []
+    for d in sorted(glob.glob("/verif/seeded/%s-*" % pid), key=lambda x: int(x.rsplit("-", 1)[1])):
+        try:
+            m = json.load(open(os.path.join(d, "meta.json")))
+        except Exception:
+            continue
+        out.append("  - " + " ".join((m.get("summary") or "").split())[:260])
+    return "\n".join(out)
+
+
 def touched(pid):
     import glob
     import os
@@ -86,4 +117,6 @@ if __name__ == "__main__":
         if sys.argv[2] == "4":
             txt = txt.replace("SIX changes", "NINE changes").replace("-7,", "-10,").replace("-8,", "-11,").replace("-9\n", "-12\n").replace("-7 etc.", "-10 etc.")
         out += txt
+    if len(sys.argv) > 2 and sys.argv[2] == "5":
+        out += ROUND5.format(pid=sys.argv[1], done=done(sys.argv[1]))
     print(out)
